@@ -25,6 +25,15 @@ type refInfo struct {
 	opt bool // declared optional reference
 }
 
+// a non-resource value holding a copy of a reference: struct field, optional struct, array
+// element or dictionary value. In the model the stored reference is a reference variable (idx).
+type holderInfo struct {
+	idx  int64
+	kind string // "struct", "optstruct", "array", "dict"
+}
+
+func hname(i int64) string { return fmt.Sprintf("h%d", i) }
+
 // Stmt is one generated Cadence statement with its model commands.
 type Stmt struct {
 	Src     string
@@ -61,6 +70,9 @@ type History struct {
 	Txs     []*Tx
 	SwapIdx bool
 	Isolate bool // run in a child process (see runIsolated)
+	// failures of this (corpus) history in engine KnownEngine are attributed to this known-finding key
+	KnownKey    string
+	KnownEngine string
 	Kinds   map[string]int
 	// features measured on the model run, used for the non-triviality rule
 	MaxDepth    int
@@ -85,6 +97,7 @@ type Gen struct {
 	tag   int64
 	vars  []*varInfo
 	refs  []*refInfo
+	hold  []*holderInfo
 	st    *State
 	p     *PState
 	h     *History
@@ -774,6 +787,114 @@ func (g *Gen) build(kind string) *Stmt {
 			UDLen: "%s.dict.length", UShow: "C.show(%s)"}[k]
 		return &Stmt{Kind: "use:" + useNames[k], Src: "log(" + fmt.Sprintf(e, rname(s.idx)) + ")",
 			Cmds: []Cmd{{Op: CUse, R: s.idx, K: k}}}
+	// ---- reference values copied around: plain copy, non-resource holders, re-reading
+	case "refCopy":
+		// copying an invalidated reference is only done through a holder (see "holderRead"):
+		// the plain form is a known defect of the interpreter, pinned in the corpus
+		s := g.pickRef(func(r *refInfo) bool { v, _ := g.st.Ref(r.idx); return v.Kind == REph })
+		if s == nil {
+			return nil
+		}
+		r := &refInfo{idx: g.fresh(), opt: s.opt}
+		g.refs = append(g.refs, r)
+		src := fmt.Sprintf("let %s = %s", rname(r.idx), rname(s.idx))
+		if !s.opt && rng.Bool() {
+			src = fmt.Sprintf("let %s = C.idn(%s)", rname(r.idx), rname(s.idx))
+		}
+		return &Stmt{Kind: kind, Src: src, Cmds: []Cmd{{Op: CRefCopy, R: r.idx, R0: s.idx}}}
+	case "holderMake":
+		s := g.pickRef(func(r *refInfo) bool {
+			v, _ := g.st.Ref(r.idx)
+			if g.want == EInvalidRef {
+				return !r.opt && v.Kind == RDead
+			}
+			return !r.opt && v.Kind == REph
+		})
+		if s == nil {
+			return nil
+		}
+		h := &holderInfo{idx: g.fresh(), kind: []string{"struct", "optstruct", "array", "dict"}[rng.Intn(4)]}
+		g.hold = append(g.hold, h)
+		var src string
+		switch h.kind {
+		case "struct":
+			src = fmt.Sprintf("let %s = C.Holder(%s)", hname(h.idx), rname(s.idx))
+		case "optstruct":
+			src = fmt.Sprintf("let %s: C.Holder? = C.Holder(%s)", hname(h.idx), rname(s.idx))
+		case "array":
+			src = fmt.Sprintf("let %s: [&{C.I}] = [C.idn(%s)]", hname(h.idx), rname(s.idx))
+		case "dict":
+			src = fmt.Sprintf("let %s: {String: &{C.I}} = {\"a\": C.idn(%s)}", hname(h.idx), rname(s.idx))
+		}
+		return &Stmt{Kind: kind + ":" + h.kind, Src: src, Cmds: []Cmd{{Op: CRefCopy, R: h.idx, R0: s.idx}}}
+	case "holderCopy":
+		var c []*holderInfo
+		for _, h := range g.hold {
+			if v, _ := g.st.Ref(h.idx); v.Kind == REph {
+				c = append(c, h)
+			}
+		}
+		if len(c) == 0 {
+			return nil
+		}
+		h0 := c[rng.Intn(len(c))]
+		h := &holderInfo{idx: g.fresh(), kind: h0.kind}
+		g.hold = append(g.hold, h)
+		return &Stmt{Kind: kind, Src: fmt.Sprintf("let %s = %s", hname(h.idx), hname(h0.idx)),
+			Cmds: []Cmd{{Op: CRefCopy, R: h.idx, R0: h0.idx}}}
+	case "holderRead":
+		var c []*holderInfo
+		for _, h := range g.hold {
+			v, _ := g.st.Ref(h.idx)
+			if (g.want == EInvalidRef && v.Kind == RDead) || (g.want == ENone && v.Kind == REph) {
+				c = append(c, h)
+			}
+		}
+		if len(c) == 0 {
+			return nil
+		}
+		h := c[rng.Intn(len(c))]
+		dead := g.want == EInvalidRef
+		r := &refInfo{idx: g.fresh()}
+		g.refs = append(g.refs, r)
+		hn, rn := hname(h.idx), rname(r.idx)
+		var src string
+		// forms that read through a reference to the holder (a new reference value is derived);
+		// the direct forms only while the stored reference is usable
+		switch h.kind {
+		case "struct":
+			switch n := rng.Intn(4); {
+			case n == 0:
+				src = fmt.Sprintf("let %s = (&%s as &C.Holder).ref", rn, hn)
+			case n == 1:
+				src = fmt.Sprintf("let %s = (&%s as &C.Holder).opt", rn, hn)
+				r.opt = true
+			case n == 2 || dead:
+				src = fmt.Sprintf("let %s = C.viaHolder(&%s as &C.Holder)", rn, hn)
+			default:
+				src = fmt.Sprintf("let %s = %s.ref", rn, hn)
+			}
+		case "optstruct":
+			src = fmt.Sprintf("let %s = (&%s as &C.Holder?)?.ref", rn, hn)
+			r.opt = true
+		case "array":
+			switch n := rng.Intn(3); {
+			case n == 0:
+				src = fmt.Sprintf("let %s = (&%s as &[&{C.I}])[0]", rn, hn)
+			case n == 1 || dead:
+				src = fmt.Sprintf("let %s = C.viaArray(&%s as &[&{C.I}], 0)", rn, hn)
+			default:
+				src = fmt.Sprintf("let %s = %s[0]", rn, hn)
+			}
+		case "dict":
+			if rng.Bool() {
+				src = fmt.Sprintf("let %s = (&%s as &{String: &{C.I}})[\"a\"]", rn, hn)
+			} else {
+				src = fmt.Sprintf("let %s = C.viaDict(&%s as &{String: &{C.I}}, \"a\")", rn, hn)
+			}
+			r.opt = true
+		}
+		return &Stmt{Kind: kind + ":" + h.kind, Src: src, Cmds: []Cmd{{Op: CRefCopy, R: r.idx, R0: h.idx}}}
 	case "showVar":
 		s := g.pickVar(func(v *varInfo) bool { return true })
 		if s == nil {
@@ -799,8 +920,8 @@ var failStmts = map[Rerr][]string{
 	EStoredType:  {"load", "borrow"},
 	EForceCast:   {"castRes", "refCast"},
 	EDeref:       {"use", "setTag", "refStep", "arrAppend"},
-	EInvalidRef: {"use", "use", "use", "refStep", "refCast", "refUnwrap", "setTag", "arrAppend", "arrRemove",
-		"swapOpt", "dictInsert", "forceOpt", "takeOpt", "dictRemove"},
+	EInvalidRef: {"use", "use", "use", "use", "refStep", "refCast", "refUnwrap", "setTag", "arrAppend", "arrRemove",
+		"swapOpt", "dictInsert", "forceOpt", "takeOpt", "dictRemove", "holderMake", "holderRead", "holderRead"},
 }
 
 type choice struct {
@@ -820,6 +941,7 @@ func (g *Gen) choices() []choice {
 		{"save", w.Storage * 2}, {"load", w.Storage},
 		{"refVar", w.Ref * 2}, {"refStep", w.Ref * 3}, {"refUnwrap", w.Ref * 2}, {"refCast", w.Ref}, {"borrow", w.Ref},
 		{"use", w.Use * 5}, {"showVar", w.Use},
+		{"refCopy", w.Ref}, {"holderMake", w.Ref * 3}, {"holderCopy", w.Ref}, {"holderRead", w.Ref * 6},
 		{"setTag", w.Mut * 3},
 		{"swapIdxArr", w.SwapIdx}, {"swapIdxDict", w.SwapIdx},
 	}
@@ -830,8 +952,9 @@ func (g *Gen) choices() []choice {
 func (g *Gen) tryStmt(kind string) *Stmt {
 	savedVars := append([]*varInfo{}, g.vars...)
 	savedRefs := append([]*refInfo{}, g.refs...)
+	savedHold := append([]*holderInfo{}, g.hold...)
 	s := g.build(kind)
-	restore := func() { g.vars, g.refs = savedVars, savedRefs }
+	restore := func() { g.vars, g.refs, g.hold = savedVars, savedRefs, savedHold }
 	if s == nil {
 		restore()
 		return nil
@@ -886,7 +1009,7 @@ func (g *Gen) pickKind() string {
 
 func (g *Gen) genTx(nStmts int, last bool) *Tx {
 	tx := &Tx{}
-	g.vars, g.refs, g.ended = nil, nil, false
+	g.vars, g.refs, g.hold, g.ended = nil, nil, nil, false
 	g.st = BeginTx(g.p)
 	// some transactions end in a statement chosen to fail in a particular way
 	failAt, failKind := -1, ENone
